@@ -1,9 +1,9 @@
 (* C14 -- source facts.  The machines and monitors this property rests on were written against, and validated on,
    these definitions of /repo; tools/srcfacts.py regenerates their normal-form digests on every run (coq/Gen/Src_*.v).
-   Statements only. *)
+   Statements only.  Written by `tools/srcfacts.py --props` from PROP_MODULES. *)
 From Coq Require Import List String.
-From ME Require Import Model.SrcExpected Gen.Src_fbool Gen.Src_fbase Gen.Src_fcheck Gen.Src_common
-  Proofs.Src_ok_fbool Proofs.Src_ok_fbase Proofs.Src_ok_fcheck Proofs.Src_ok_common.
+From ME Require Import Model.SrcExpected Gen.Src_fbool Gen.Src_fbase Gen.Src_fcheck Gen.Src_common Gen.Src_futures_init Gen.Src_logwrap Gen.Src_metrics_null
+  Proofs.Src_ok_fbool Proofs.Src_ok_fbase Proofs.Src_ok_fcheck Proofs.Src_ok_common Proofs.Src_ok_futures_init Proofs.Src_ok_logwrap Proofs.Src_ok_metrics_null.
 
 (* more_executors/_impl/futures/bool.py *)
 Theorem c14_source_fbool : Src_fbool.facts = expected_fbool.
@@ -17,8 +17,20 @@ Proof. exact src_fcheck_ok. Qed.
 (* more_executors/_impl/common.py *)
 Theorem c14_source_common : Src_common.facts = expected_common.
 Proof. exact src_common_ok. Qed.
+(* more_executors/_impl/futures/__init__.py *)
+Theorem c14_source_futures_init : Src_futures_init.facts = expected_futures_init.
+Proof. exact src_futures_init_ok. Qed.
+(* more_executors/_impl/logwrap.py *)
+Theorem c14_source_logwrap : Src_logwrap.facts = expected_logwrap.
+Proof. exact src_logwrap_ok. Qed.
+(* more_executors/_impl/metrics/null.py *)
+Theorem c14_source_metrics_null : Src_metrics_null.facts = expected_metrics_null.
+Proof. exact src_metrics_null_ok. Qed.
 
 Print Assumptions c14_source_fbool.
 Print Assumptions c14_source_fbase.
 Print Assumptions c14_source_fcheck.
 Print Assumptions c14_source_common.
+Print Assumptions c14_source_futures_init.
+Print Assumptions c14_source_logwrap.
+Print Assumptions c14_source_metrics_null.
